@@ -38,6 +38,7 @@ var initWhitelist = map[string]bool{
 }
 
 var mapOrderReverse bool
+var mapOrderBase bool // the job's own order (reverse in the thorough re-run); vMapOrder(true) flips relative to it
 
 // per-path environment state
 var pools map[*value][]value
@@ -176,6 +177,7 @@ func init() {
 		cometPath + ".vTag":        func(fr *frame, a []value) value { X.tags = append(X.tags, a[0].(string)); return nil },
 		cometPath + ".vObserve":    extObserve,
 		cometPath + ".vSymbolic":   func(fr *frame, a []value) value { return !X.Concrete },
+		cometPath + ".vMapOrder":   func(fr *frame, a []value) value { mapOrderReverse = a[0].(bool) != mapOrderBase; return nil },
 		cometPath + ".vRandBudget": func(fr *frame, a []value) value { X.randBudget = asInt(a[0]); return nil },
 		cometPath + ".vAnd":        func(fr *frame, a []value) value { return symAnd(a[0], a[1]) },
 		cometPath + ".vOr":         func(fr *frame, a []value) value { return symOr(a[0], a[1]) },
